@@ -134,7 +134,7 @@ func init() {
 	nAdv := len(c03Adversarial())
 	fw.Register(&fw.Prop{
 		ID:       "C03",
-		CaseCPU:  20,
+		CaseCPU:  600,
 		Title:    "Decoding never crashes: any input yields a document or an error",
 		NeedsCLI: true,
 		Cases:    func(tier string, seed uint64) int { return nAdv + c03Rand(tier) + c03Mut(tier) },
@@ -245,9 +245,12 @@ func c03CLI(c *fw.Ctx, data []byte, kind string) {
 			got = "documented-indent-panic"
 		case CrashedGo(out, err) && strings.Contains(out, "(*Decoder).Decode"):
 			got = "decoder-crash"
-		case CrashedGo(out, err):
+		case CrashedGo(out, err) && want == "accepted":
 			c.Count("cli-crash-after-decoding (C14's subject)", 1)
 			continue
+		case CrashedGo(out, err):
+			// the library refuses this input, the command went on with it
+			got = "crash-after-the-decoder-returned"
 		case err != nil && c03CLILineErr.MatchString(out):
 			got = "rejected-with-line-error"
 		case err != nil:
